@@ -271,6 +271,7 @@ def main(argv=None):
     seed = int(os.environ.get('VERIF_SEED', '0') or 0)
     t0 = time.time()
     gen.render('harness')
+    gen.render_lib('harness')
     os.makedirs(WORK, exist_ok=True)
     logdir = os.path.join(WORK, 'logs', prop)
     os.makedirs(logdir, exist_ok=True)
